@@ -77,6 +77,17 @@ func main() {
 				return r.Run(&b)
 			}
 		})
+	case "valconc":
+		simple(os.Args[2:], func(w *env.World, out *bufio.Writer) func([]byte) error {
+			r := &drive.ConcRunner{W: w, Out: out}
+			return func(line []byte) error {
+				var sc drive.ConcScenario
+				if err := json.Unmarshal(line, &sc); err != nil {
+					return err
+				}
+				return r.Run(&sc)
+			}
+		})
 	case "netconf":
 		simple(os.Args[2:], func(w *env.World, out *bufio.Writer) func([]byte) error {
 			r := &drive.NCRunner{W: w, Out: out}
